@@ -15,6 +15,42 @@ from coqlit import cz, clist, cstr
 
 ED = P.ed25519_blob()
 RANK = [0, 2, 3, 1, -1]
+DASHES = '-' * 80 + '\n'
+
+
+def skeleton(out, js):
+    """The real stdout of a -T run with each worker's output replaced by a token B<i>: what is left (brackets, separators, delimiter lines,
+    line ends) is what main() itself prints.  JSON spans come from the JSON decoder, text spans from the delimiter lines.  Returns (text, n)."""
+    spans = []
+    if js:
+        dec = json.JSONDecoder()
+        pos = out.find('[') + 1
+        if pos == 0:
+            return None, 0
+        while True:
+            while pos < len(out) and out[pos] in ' ,\n\t\r':
+                pos += 1
+            if pos >= len(out) or out[pos] == ']':
+                break
+            try:
+                _, end = dec.raw_decode(out, pos)
+            except ValueError:
+                return None, 0
+            spans.append((pos, end))
+            pos = end
+    else:
+        pos = 0
+        first = True
+        for piece in out.split(DASHES):
+            a, b = pos + (0 if first else 1), pos + len(piece) - 1     # a block is followed by the line end print() adds; later blocks follow the empty line after the delimiter
+            spans.append((a, max(a, b)))
+            pos += len(piece) + len(DASHES)
+            first = False
+    res, last = [], 0
+    for i, (a, b) in enumerate(spans):
+        res.append(out[last:a]); res.append('B%d' % i); last = b
+    res.append(out[last:])
+    return ''.join(res), len(spans)
 
 
 def healthy_specs():
@@ -130,6 +166,11 @@ def run(ctx):
                         if n.startswith('ok-') and not any(('(gen) target: ' + targets[n]) in canon.strip_ansi(b) and re.search(r'^\((kex|enc)\) ', canon.strip_ansi(b), re.M) for b in blocks):
                             ctx.violation('healthy-report-lost', 'the report of healthy target %s is missing from a run over %r' % (n, c['list']), desc)
             # correspondence with the result-collection model: statuses in list order and in reverse give the observed status
+            sk, nb = skeleton(r['out'], c['json'])
+            if sk is not None and nb == len(c['list']) and len(sk) < 2000:
+                blocks = '[' + '; '.join('(0, %s)' % cstr('B%d' % i) for i in range(nb)) + ']'
+                terms.append('String.eqb (multi_stdout %s %s) %s' % ('true' if c['json'] else 'false', blocks, cstr(sk)))
+                descs.append(dict(desc, op='cli-multi-stdout-skeleton', skeleton=sk))
             res = clist(sts_signed, lambda s: '(%s, "")' % cz(s))
             terms.append('Z.eqb (process_status (final_status %s)) %s && Z.eqb (final_status %s) (final_status (rev %s))' % (res, cz(r['rc']), res, res))
             descs.append(desc)
